@@ -63,7 +63,10 @@ class KeyValueStorage(dict):
     def get(self, x):
         if not isinstance(x,str):
             raise KlongKvsException(x, "key must be a str")
-        return deserialize_obj(self.cache.get_file(key_to_file_path(x)))
+        try:
+            return deserialize_obj(self.cache.get_file(key_to_file_path(x)))
+        except FileNotFoundError:
+            return KLONG_UNDEFINED
 
     def set(self, x, y):
         if not isinstance(x,str):
